@@ -22,18 +22,23 @@ LEVEL_TEXT = ("Lean 4 theorems over every reachable state of a small-step model 
               "pause_on_next/wait/cont and every schedule: queue_exactly_once (ids ever queued = executed ++ "
               "in-flight ++ queue, no duplicates), executed_only_at_control_point, "
               "result_delivered_is_execution_result, get_result_blocks_until_run, "
+              "get_result_holds_lock_only_after_release, solver_never_raises (the solver thread never reaches the "
+              "KeyError/RuntimeError exits of run_queued_commands; every protocol variant), "
               "paused_solver_makes_no_progress_until_cont, wait_returns_only_when_honoured; for the repaired protocol "
-              "wait_wakeup_not_lost, plock_mutual_exclusion and no_deadlock_pause_fragment (programs over "
-              "get/set/pause_on_next/wait/cont never reach a state without an enabled thread); the deadlocks of the "
+              "wait_wakeup_not_lost, dispatch_wakeup_not_lost, plock_mutual_exclusion, lock_ownership (dispatch lock, "
+              "res_lock, qlock, plock: owner <-> program counter), command_lock_ownership and no_deadlock: for ALL "
+              "operations including queued commands and get_result of arbitrary ids, any number of threads, the only "
+              "requirement being that no program ends inside a pause section, no reachable state is without an "
+              "enabled thread (no_deadlock_statement_holds, no_deadlock_pause_fragment are corollaries; "
+              "unbalanced_pause_blocks_solver shows the requirement is needed); the deadlocks of the "
               "pinned protocol are exhibited as theorems (lost_wakeup_reachable, lock_order_deadlock_reachable, "
               "get_result_while_paused_deadlock_reachable, early_wait_return_reachable) and replayed on the real "
               "code. The model is tied to the code on every run by executing the real CommandManager under a "
               "cooperative scheduler on thousands of forced schedules and comparing enabled sets, primitives and "
               "results step by step; the property's own predicate (exactly-once, delivery, wait/cont discipline, "
               "nobody blocked forever for well-formed programs) is evaluated on the real traces.")
-LEVEL_NOTE = ("Partial: freedom from deadlock of the REPAIRED protocol is proved for the pause fragment only "
-              "(no queued commands / get_result in the programs; stuck-freedom, not fair termination); with queued "
-              "commands it is stated (no_deadlock_statement) and sampled on the real code (every well-formed "
+LEVEL_NOTE = ("Freedom from deadlock (some thread enabled in every reachable state) of the REPAIRED protocol is proved "
+              "for all operations; fair termination is not proved (it is sampled on the real code: every well-formed "
               "program finishes under a fair continuation of each schedule). Trusted: Lean kernel; the hand-written model (checked by the "
               "correspondence); the cooperative threading replacement in place of CPython's primitives and "
               "scheduler; primitive-level interleaving granularity; serial DummyComm.")
